@@ -9,6 +9,7 @@ import (
 	"strings"
 
 	"github.com/llir/llvm/asm"
+	asmenum "github.com/llir/llvm/asm/enum"
 	"github.com/llir/llvm/ir"
 	"github.com/llir/llvm/ir/constant"
 	"github.com/llir/llvm/ir/enum"
@@ -16,6 +17,15 @@ import (
 	"github.com/llir/llvm/ir/types"
 	"github.com/llir/llvm/ir/value"
 )
+
+// the header keywords in the order of the model's list `Core3.kLead`
+var c3Lead = []string{"appending", "available_externally", "common", "internal", "linkonce", "linkonce_odr", "private", "weak", "weak_odr", "external", "extern_weak",
+	"dso_local", "dso_preemptable", "default", "hidden", "protected", "dllexport", "dllimport",
+	"ccc", "fastcc", "coldcc", "ghccc", "webkit_jscc", "anyregcc", "preserve_mostcc", "preserve_allcc", "swiftcc", "cxx_fast_tlscc", "tailcc", "cfguard_checkcc",
+	"swifttailcc", "x86_stdcallcc", "x86_fastcallcc", "arm_apcscc", "arm_aapcscc", "arm_aapcs_vfpcc", "msp430_intrcc", "x86_thiscallcc", "ptx_kernel", "ptx_device",
+	"spir_func", "spir_kernel", "intel_ocl_bicc", "x86_64_sysvcc", "win64cc", "x86_vectorcallcc", "hhvmcc", "hhvm_ccc", "x86_intrcc", "avr_intrcc", "avr_signalcc",
+	"amdgpu_vs", "amdgpu_gs", "amdgpu_ps", "amdgpu_cs", "amdgpu_kernel", "x86_regcallcc", "amdgpu_hs", "amdgpu_ls", "amdgpu_es", "aarch64_vector_pcs",
+	"aarch64_sve_vector_pcs", "amdgpu_gfx"}
 
 // M-Core-3 descriptors (see lean/LlirModel/Drv/Core3Ops.lean): a function definition built through the ir API.
 //   core3.print <ret ty> <hexname> <params> <blocks>
@@ -410,7 +420,31 @@ func core3Prepare(named map[string]*types.StructType, a []string) (*ir.Func, fun
 			locals[key(id)] = p
 		}
 	}
-	fn := ir.NewFunc(string(unhexArg(a[1])), ret, params...)
+	// the name field may carry the header keywords: `<hexname>~<i>,<i>…` (positions in the model's list `kLead`: linkage, preemption, visibility, DLL storage
+	// class, calling convention)
+	nameHex, lead, _ := strings.Cut(a[1], "~")
+	fn := ir.NewFunc(string(unhexArg(nameHex)), ret, params...)
+	if lead != "" {
+		for _, ps := range strings.Split(lead, ",") {
+			i, err := strconv.Atoi(ps)
+			if err != nil || i < 0 || i >= len(c3Lead) {
+				panic("harness: bad header keyword position " + ps)
+			}
+			kw := c3Lead[i]
+			switch {
+			case i < 11:
+				fn.Linkage = asmenum.LinkageFromString(kw)
+			case i < 13:
+				fn.Preemption = asmenum.PreemptionFromString(kw)
+			case i < 16:
+				fn.Visibility = asmenum.VisibilityFromString(kw)
+			case i < 18:
+				fn.DLLStorageClass = asmenum.DLLStorageClassFromString(kw)
+			default:
+				fn.CallingConv = asmenum.CallingConvFromString(kw)
+			}
+		}
+	}
 	type pend struct {
 		in   c3inst
 		inst interface{}
